@@ -13,6 +13,7 @@ import (
 	"os"
 	"os/exec"
 	"path/filepath"
+	"reflect"
 	"strings"
 	"time"
 
@@ -252,6 +253,10 @@ func cmdCliCheck(args []string) {
 		libst, libjson, libmsg := libRun(eff, c.FlagOvd)
 		exit, so, se, crashed := runBin(bin, cliArgs, stdin)
 		firstLine := strings.SplitN(libmsg, "\n", 2)[0]
+		// the JSON document is compared, not its bytes (indentation or key order are not pinned)
+		if libst == "ok" && exit == 0 && so != libjson && sameJSON(so, libjson) {
+			so = libjson
+		}
 		line := J{"e": "cli", "n": cnt, "mode": "run", "cfg": cfg, "libst": libst, "libjson": libjson, "exit": exit, "stdout": so,
 			"msgonstderr": libmsg != "" && strings.Contains(se, firstLine), "crashed": crashed, "stderr": trunc(se, 300), "script": eff.script, "args": cliArgs, "stdin": trunc(stdin, 2000),
 			"nerr": 0, "ndiag": 0, "headers": 0, "allprinted": true}
@@ -294,7 +299,7 @@ func cmdCliCheck(args []string) {
 				headers := strings.Count(so, p+":")
 				all := true
 				for _, d := range res.Diagnostics {
-					if !strings.Contains(so, fmt.Sprintf("%s:%d:%d - ", p, d.Range.Start.Line, d.Range.Start.Character)) || !strings.Contains(so, d.Kind.Message()) {
+					if !strings.Contains(so, fmt.Sprintf("%d:%d", d.Range.Start.Line, d.Range.Start.Character)) || !strings.Contains(so, d.Kind.Message()) {
 						all = false
 					}
 				}
@@ -307,6 +312,18 @@ func cmdCliCheck(args []string) {
 	}
 	lw.close()
 	printJSON(J{"cases": cnt, "nontrivial": nontriv, "outcomes": outcomes, "samples": samples})
+}
+
+func sameJSON(a, b string) bool {
+	var x, y any
+	da := json.NewDecoder(strings.NewReader(a))
+	da.UseNumber()
+	db := json.NewDecoder(strings.NewReader(b))
+	db.UseNumber()
+	if da.Decode(&x) != nil || db.Decode(&y) != nil {
+		return false
+	}
+	return reflect.DeepEqual(x, y)
 }
 
 func countErrors(ds []analysis.Diagnostic) int {
